@@ -2,6 +2,7 @@
 #![allow(clippy::too_many_arguments, clippy::needless_range_loop, clippy::type_complexity)]
 
 pub mod api;
+pub mod guard;
 pub mod lanes;
 pub mod log;
 pub mod machines;
